@@ -127,6 +127,7 @@ type e2eCase struct {
 	ttl      ttlOpts
 	ascii    *bool
 	badParam bool
+	family   string // "" = general generator; otherwise the targeted family of miss.go
 
 	// results
 	resource  string
@@ -147,13 +148,27 @@ func (c *e2eCase) describe() string {
 
 func boolp(b bool) *bool { return &b }
 
-func (g *gen) e2eCase(id int) *e2eCase {
+func (g *gen) e2eCase(id int) *e2eCase { return g.e2eCaseHint(id, nil) }
+
+// e2eCaseHint: hint = nil for the general generator; a family (miss.go) fixes the source format, possibly the
+// target, and builds the document (and the Turtle options) once the output name is known.
+func (g *gen) e2eCaseHint(id int, hint *caseHint) *e2eCase {
 	r := g.r
 	c := &e2eCase{id: id}
-	fm := vh.Pick(r, sourceNames)
-	c.src = g.sourceDoc(fm)
+	var fm string
+	if hint != nil {
+		fm = hint.format
+		c.family = hint.family
+		c.src = sourceDoc{format: fm}
+	} else {
+		fm = vh.Pick(r, sourceNames)
+		c.src = g.sourceDoc(fm)
+	}
 	f := formats[fm]
 	c.target = vh.Pick(r, targetNames)
+	if hint != nil && hint.target != "" {
+		c.target = hint.target
+	}
 	tf := formats[c.target]
 
 	// ---- how the input type is given
@@ -221,7 +236,11 @@ func (g *gen) e2eCase(id int) *e2eCase {
 	}
 
 	// ---- how the output type is given
-	switch vh.Pick(r, []string{"alias", "alias", "cti", "ext", "ext", "stdout-alias", "fallback"}) {
+	outModes := []string{"alias", "alias", "cti", "ext", "ext", "stdout-alias", "fallback"}
+	if hint != nil && hint.target != "" {
+		outModes = outModes[:len(outModes)-1] // the fallback type is N-Quads
+	}
+	switch vh.Pick(r, outModes) {
 	case "alias":
 		c.outMode, c.outType = "alias", vh.Pick(r, tf.alias)
 		c.outName = vh.Pick(r, []string{"out.dat", "out", "out" + formats[vh.Pick(r, targetNames)].ext})
@@ -231,7 +250,7 @@ func (g *gen) e2eCase(id int) *e2eCase {
 	case "ext":
 		c.outMode = "ext"
 		c.outName = vh.Pick(r, []string{"out", "o.x"}) + tf.ext
-		if r.Chance(8) {
+		if r.Chance(8) && hint == nil {
 			c.outName = "out" + strings.ToUpper(tf.ext) // the encoder side is case-sensitive: falls back to N-Quads
 		}
 	case "stdout-alias":
@@ -296,6 +315,12 @@ func (g *gen) e2eCase(id int) *e2eCase {
 		}
 		c.ttl = o
 		c.outParam = o.params()
+	}
+	if hint != nil {
+		if hint.target == "ttl" {
+			c.ttl, c.outParam, c.outBase = ttlOpts{}, nil, ""
+		}
+		hint.build(c)
 	}
 	if r.Chance(2) {
 		c.badParam = true
@@ -722,7 +747,7 @@ func codecOnly(c *e2eCase, encCti string, fed []rdf.Quad, writerIRI string) (ok 
 	if encCti != "org.w3.n-quads" {
 		want = allTriples(fed)
 	}
-	if !vh.Isomorphic(back, want) {
+	if !isoQuads(back, want) {
 		return false, "library encoder → decoder does not return the dataset"
 	}
 	return true, ""
@@ -1156,7 +1181,7 @@ func (g *gen) evaluate(c *e2eCase) verdict {
 	fail := func(symptom string, silent bool) verdict {
 		if decCti != trueCti {
 			// harmless when the other decoder reads the same dataset (N-Triples or Turtle read as TriG)
-			if other, err := refDecode(decCti, c.src.body, base); err != nil || !vh.Isomorphic(other, ref) {
+			if other, err := refDecode(decCti, c.src.body, base); err != nil || !isoQuads(other, ref) {
 				return misdetected(symptom, silent)
 			}
 		}
@@ -1169,8 +1194,8 @@ func (g *gen) evaluate(c *e2eCase) verdict {
 	if derr != nil {
 		return fail(fmt.Sprintf("the output is not readable as %s: %v", encCti, derr), true)
 	}
-	if !vh.Isomorphic(got, expected) {
-		if decCti == trueCti && !quadsTarget && hasNamedGraph(ref) && vh.Isomorphic(got, allTriples(ref)) {
+	if !isoQuads(got, expected) {
+		if decCti == trueCti && !quadsTarget && hasNamedGraph(ref) && isoQuads(got, allTriples(ref)) {
 			d := "triples-only target received the statements of named graphs (QuadAsTripleEncoder drops the graph name instead of the statement) — " + c.describe()
 			return g.knownOrViolation("named-graph-to-triples-target", d, "D20")
 		}
@@ -1217,8 +1242,27 @@ func (g *gen) evaluate(c *e2eCase) verdict {
 
 func (g *gen) e2e(n int) {
 	cases := make([]*e2eCase, n)
+	nBig := 6 * *scale
+	if *tier == "thorough" {
+		nBig = 42 * *scale
+	}
+	if nBig > n/4 {
+		nBig = n / 4
+	}
 	for i := range cases {
-		cases[i] = g.e2eCase(i)
+		switch {
+		case i < nBig:
+			h := g.bigHint(i)
+			cases[i] = g.e2eCaseHint(i, &h)
+		case i%8 == 3:
+			h := g.nearbaseHint()
+			cases[i] = g.e2eCaseHint(i, &h)
+		case i%8 == 7:
+			h := g.pnlocalHint()
+			cases[i] = g.e2eCaseHint(i, &h)
+		default:
+			cases[i] = g.e2eCase(i)
+		}
 		predictTypes(cases[i])
 	}
 	workers := 8
@@ -1247,6 +1291,7 @@ func (g *gen) e2e(n int) {
 			defer wg.Done()
 			for i := range ch2 {
 				verdicts[i] = g.evaluate(cases[i])
+				cases[i].output = nil
 			}
 		}()
 	}
@@ -1267,6 +1312,11 @@ func (g *gen) e2e(n int) {
 		g.rep.Count("e2e:in:" + c.inMode)
 		g.rep.Count("e2e:out:" + c.outMode)
 		g.rep.Count("e2e:outcome:" + v.class)
+		if c.family != "" {
+			g.rep.Count("e2e:family:" + c.family)
+			g.rep.Count("fam:" + c.family + ":outcome:" + v.class)
+			g.rep.Count("fam:" + c.family + ":source:" + c.src.format)
+		}
 		for _, p := range c.outParam {
 			g.rep.Count("e2e:param:" + strings.SplitN(p, "=", 2)[0])
 		}
@@ -1286,6 +1336,9 @@ func (g *gen) e2e(n int) {
 			}
 		}
 		os.RemoveAll(filepath.Join(g.scratch, fmt.Sprintf("c%d", c.id)))
+	}
+	for k, v := range bigStats.n {
+		g.rep.Hist[k] += v
 	}
 }
 
